@@ -14,6 +14,8 @@ import PV.C04.Thm
                           malformed shapes;
   * `lexRest_error_iff`   the lexer fails on exactly `numMalformed` (radix prefix without digit,
                           `digits . _`, leading zero with a nonzero digit and no `.`/exponent/`j`);
+  * `numMalformed_iff_spec`, `lexRest_error_iff_spec`   the same three shapes written with the grammar's
+                          nonterminals only (`NumMalformedSpec` = `radixNoDigit ∨ dotUnderscore ∨ leadingZero`);
   * `lexRest_no_fallback` the lexer does not fall back to a shorter literal (`09`, `1._`, `0x`).
 
   Technique: `drun rdx l` (what `radix_run` leaves) is the common end of EVERY remainder of
@@ -854,13 +856,30 @@ theorem number_suffix (cs r : List Nat) (h : r ∈ number cs) : r <:+ cs := suf_
 
 /-! ### exactly when the lexer fails -/
 
+/-- `. _` -/
+def dotUs : List Nat → Bool
+  | 46 :: t => headIs (· = 95) t
+  | _ => false
+
+theorem dotUs_iff (d : List Nat) : dotUs d = true ↔ ∃ t', d = 46 :: 95 :: t' := by
+  constructor
+  · intro h
+    unfold dotUs at h
+    split at h
+    · rename_i t
+      cases t with
+      | nil => simp [headIs] at h
+      | cons u t' =>
+        have : u = 95 := by simpa [headIs] using h
+        subst this; exact ⟨t', rfl⟩
+    · cases h
+  · rintro ⟨t', h⟩; subst h; simp [dotUs, headIs]
+
 /-- the two decimal shapes `lex_normal_number` rejects: `digits . _` (an underscore directly after the
     point), and a digit string with a leading `0` and a nonzero digit that is followed by neither a `.`,
     an exponent nor a `j` (CPython: "leading zeros in decimal integer literals are not permitted") -/
 def decMalformed (cs : List Nat) : Bool :=
-  (match drun 10 cs with
-   | 46 :: t => headIs (· = 95) t
-   | _ => false) ||
+  dotUs (drun 10 cs) ||
   (headIs (· = 48) cs && (radixRun 10 cs).1.any (· ≠ 48) &&
     !(headIs (· = 46) (drun 10 cs)) && !(atExponent (drun 10 cs)) && !(headIs isJ (drun 10 cs)))
 
@@ -887,12 +906,13 @@ theorem lexNormalRest_error_iff (cs : List Nat) : (∃ e, lexNormalRest cs = .er
       rw [hx] at h46'
       simp only [h46', Bool.not_true, Bool.and_false, Bool.false_and, Bool.or_false]
       by_cases hu : headIs (· = 95) t = true
-      · rw [lexNormalRest_dot_us cs t hx hu]; simp [hu]
-      · rw [lexNormalRest_dot cs t hx (by simpa using hu)]; simp [hu]
-  · have hm : (match drun 10 cs with | 46 :: t => headIs (· = 95) t | _ => false) = false := by
-      split
-      · rename_i t heq; rw [heq] at h46; simp [headIs] at h46
+      · rw [lexNormalRest_dot_us cs t hx hu]; simp [dotUs, hu]
+      · rw [lexNormalRest_dot cs t hx (by simpa using hu)]; simp [dotUs, hu]
+  · have hm : dotUs (drun 10 cs) = false := by
+      cases hb : dotUs (drun 10 cs)
       · rfl
+      · obtain ⟨t', h⟩ := (dotUs_iff _).mp hb
+        rw [h] at h46; simp [headIs] at h46
     rw [hm]
     by_cases hat : atExponent (drun 10 cs) = true
     · rw [lexNormalRest_exp cs hat]; simp [hat]
@@ -931,6 +951,359 @@ theorem lexRest_error_iff (cs : List Nat) : (∃ e, lexRest cs = .error e) ↔ n
         | some rdx => exact absurd ⟨x, rest, rdx, rfl, hh⟩ hrad
       · rfl
     rw [hn, hm]; exact lexNormalRest_error_iff cs
+
+
+/-! ### the malformed shapes in terms of the grammar alone -/
+
+/-- what `radix_run` leaves cannot be extended: it is empty or starts with neither a digit nor `_ digit` -/
+theorem radixRun_drun (rdx : Nat) (l : List Nat) : radixRun rdx (drun rdx l) = ([], drun rdx l) := by
+  induction l with
+  | nil => simp [drun, radixRun]
+  | cons c t ih =>
+    by_cases hc : isDigitOf rdx c = true
+    · rw [drun_digit rdx c t hc]; exact ih
+    · have hc' : isDigitOf rdx c = false := by simpa using hc
+      by_cases h2 : (c = 95 && headIs (isDigitOf rdx) t) = true
+      · have : drun rdx (c :: t) = drun rdx t := by unfold drun; rw [radixRun_us rdx c t hc' h2]
+        rw [this]; exact ih
+      · have h2' : (c = 95 && headIs (isDigitOf rdx) t) = false := by simpa using h2
+        have : drun rdx (c :: t) = c :: t := by unfold drun; rw [radixRun_stop rdx c t hc' h2']
+        rw [this]; exact radixRun_stop rdx c t hc' h2'
+
+theorem usDigits_stop (rdx : Nat) (r : List Nat) (h : radixRun rdx r = ([], r)) :
+    usDigits (isDigitOf rdx) r = [r] := by
+  cases r with
+  | nil => simp [usDigits]
+  | cons c t =>
+    by_cases hc : isDigitOf rdx c = true
+    · rw [radixRun_digit rdx c t hc] at h; simp at h
+    · have hc' : isDigitOf rdx c = false := by simpa using hc
+      by_cases h2 : (c = 95 && headIs (isDigitOf rdx) t) = true
+      · rw [radixRun_us rdx c t hc' h2] at h
+        have := radixRun_len rdx t
+        rw [h] at this; simp at this; omega
+      · unfold usDigits
+        rw [if_neg hc]
+        by_cases h95 : c = 95
+        · rw [if_pos h95]
+          cases t with
+          | nil => rfl
+          | cons c' t' =>
+            have : isDigitOf rdx c' = false := by simpa [h95, headIs] using h2
+            simp [this]
+        · rw [if_neg h95]
+
+theorem drun_of_usDigits_single (rdx : Nat) (r : List Nat) (h : usDigits (isDigitOf rdx) r = [r]) : drun rdx r = r := by
+  have hm := radixRun_mem rdx r.length r (Nat.le_refl _)
+  rw [h] at hm
+  simpa [drun] using hm
+
+/-- digits were collected: `radix_run` consumed something -/
+theorem drun_lt (rdx : Nat) (l : List Nat) (h : (radixRun rdx l).1 ≠ []) : (drun rdx l).length < l.length := by
+  cases l with
+  | nil => simp [radixRun] at h
+  | cons c t =>
+    by_cases hc : isDigitOf rdx c = true
+    · rw [drun_digit rdx c t hc]; have := drun_len rdx t; simp; omega
+    · have hc' : isDigitOf rdx c = false := by simpa using hc
+      by_cases h2 : (c = 95 && headIs (isDigitOf rdx) t) = true
+      · have : drun rdx (c :: t) = drun rdx t := by unfold drun; rw [radixRun_us rdx c t hc' h2]
+        rw [this]; have := drun_len rdx t; simp; omega
+      · rw [radixRun_stop rdx c t hc' (by simpa using h2)] at h; simp at h
+
+/-- `(["_"] digit)+` has no remainder ⇔ `radix_run` collects no digit -/
+theorem usDigits1_nil_iff (rdx : Nat) (rest : List Nat) :
+    usDigits1 (isDigitOf rdx) rest = [] ↔ (radixRun rdx rest).1.isEmpty = true := by
+  unfold usDigits1
+  rw [List.filter_eq_nil_iff]
+  constructor
+  · intro h
+    cases he : (radixRun rdx rest).1 with
+    | nil => rfl
+    | cons a b =>
+      have hlt := drun_lt rdx rest (by rw [he]; simp)
+      have := h _ (radixRun_mem rdx rest.length rest (Nat.le_refl _))
+      simp at this; unfold drun at hlt; omega
+  · intro he r hr
+    have := usDigits_of_empty rdx rest r (by simpa using he) hr
+    subst this; simp
+
+
+theorem exponent_nil_iff (r : List Nat) : exponent r = [] ↔ atExponent r = false := by
+  constructor
+  · intro h
+    cases hat : atExponent r
+    · rfl
+    · have ht := lexExponent_total r
+      rcases lexExponent_sound r _ ht with ⟨_, h2⟩ | h2
+      · rw [hat] at h2; cases h2
+      · rw [h] at h2; simp at h2
+  · intro h
+    cases he : exponent r with
+    | nil => rfl
+    | cons a b =>
+      have := (exponent_drun r a (by rw [he]; simp)).1
+      rw [h] at this; cases this
+
+/-- the end of the leading digit string is a `decinteger` remainder unless the string has a leading `0`
+    and a nonzero digit -/
+theorem drun_mem_decinteger_iff (c : Nat) (t : List Nat) (hc : isDec c = true) :
+    drun 10 (c :: t) ∈ decinteger (c :: t) ↔
+      (headIs (· = 48) (c :: t) && (radixRun 10 (c :: t)).1.any (· ≠ 48)) = false := by
+  have hc10 : isDigitOf 10 c = true := hc
+  constructor
+  · intro h
+    have hstop := radixRun_drun 10 (c :: t)
+    unfold decinteger at h
+    rw [mem_alt] at h
+    rcases h with h | h
+    · rw [mem_seq] at h
+      obtain ⟨t', ht, h⟩ := h
+      obtain ⟨c', hcc, hnz⟩ := mem_lit_iff.mp ht
+      simp only [List.cons.injEq] at hcc
+      rw [← hcc.1] at hnz
+      have : c ≠ 48 := by intro hh; subst hh; revert hnz; decide
+      simp [headIs, this]
+    · rw [mem_seq] at h
+      obtain ⟨t', ht, h⟩ := h
+      obtain ⟨c', hcc, hz0⟩ := mem_lit_iff.mp ht
+      simp only [List.cons.injEq] at hcc
+      obtain ⟨hc1, hc2⟩ := hcc
+      subst hc1; subst hc2
+      obtain ⟨pre, h1, h2⟩ := usDigits_radixRun (· = 48) 10 zero_dec _ t.length t (Nat.le_refl _) h
+      have hc48 : c = 48 := by simpa using hz0
+      rw [radixRun_digit 10 c t hc10, h1, hstop]
+      simp only [List.append_nil, List.any_cons, Bool.and_eq_false_iff, Bool.or_eq_false_iff]
+      right
+      refine ⟨by simp [hc48], ?_⟩
+      rw [List.any_eq_false]
+      intro x hx
+      have := h2 x hx
+      simp at this; simp [this]
+  · intro h
+    rw [drun_digit 10 c t hc10]
+    unfold decinteger
+    rw [mem_alt]
+    by_cases hc48 : c = 48
+    · right
+      rw [mem_seq]
+      refine ⟨t, mem_lit (by simp [hc48]), ?_⟩
+      apply radixRun_zeros t.length t (Nat.le_refl _)
+      rw [radixRun_digit 10 c t hc10] at h
+      simp only [headIs, hc48, decide_true, Bool.true_and, List.any_cons, Bool.or_eq_false_iff] at h
+      rw [List.all_eq_true]
+      intro x hx
+      have := List.any_eq_false.mp h.2 x hx
+      simpa using this
+    · left
+      rw [mem_seq]
+      refine ⟨t, mem_lit ?_, ?_⟩
+      · simp only [isDec, isDigitOf, Bool.and_eq_true, decide_eq_true_eq] at hc
+        simp only [nonzerodigit, Bool.and_eq_true, decide_eq_true_eq]; omega
+      · rw [← isDigitOf10]; exact radixRun_mem 10 t.length t (Nat.le_refl _)
+
+/-- a radix prefix `0b`/`0o`/`0x` with no `(["_"] digit)+` of that radix after it -/
+def radixNoDigit (cs : List Nat) : Prop :=
+  ∃ x rest, cs = 48 :: x :: rest ∧
+    (((x = 98 ∨ x = 66) ∧ usDigits1 bindigit rest = []) ∨ ((x = 111 ∨ x = 79) ∧ usDigits1 octdigit rest = []) ∨
+     ((x = 120 ∨ x = 88) ∧ usDigits1 hexdigit rest = []))
+
+/-- a `digitpart`, then `.`, then directly an underscore -/
+def dotUnderscore (cs : List Nat) : Prop := ∃ t, (46 :: 95 :: t) ∈ digitpart cs
+
+/-- the longest `digitpart` at the start is not a `decinteger` (leading `0`, then a nonzero digit), and neither
+    a `.`, an `exponent` nor a `j` follows it -/
+def leadingZero (cs : List Nat) : Prop :=
+  ∃ r, r ∈ digitpart cs ∧ usDigits digit r = [r] ∧ r ∉ decinteger cs ∧
+    lit (· = 46) r = [] ∧ exponent r = [] ∧ lit (fun c => c = 106 || c = 74) r = []
+
+/-- the malformed shapes, written with the grammar's own nonterminals only -/
+def NumMalformedSpec (cs : List Nat) : Prop := radixNoDigit cs ∨ dotUnderscore cs ∨ leadingZero cs
+
+theorem lit_nil_iff (p : Nat → Bool) (r : List Nat) : lit p r = [] ↔ headIs p r = false := by
+  cases r with
+  | nil => simp [lit, headIs]
+  | cons c t => by_cases h : p c = true <;> simp [lit, headIs, h]
+
+
+theorem startsNumber_cases (cs : List Nat) (hs : startsNumber cs = true) :
+    (∃ c t, cs = c :: t ∧ isDec c = true) ∨ (∃ d t, cs = 46 :: d :: t ∧ isDec d = true) := by
+  match cs, hs with
+  | [c], hs => left; exact ⟨c, [], rfl, by simpa [startsNumber] using hs⟩
+  | c :: d :: t, hs =>
+    rw [startsNumber_cons2] at hs
+    by_cases e : c = 46
+    · subst e; right; exact ⟨d, t, rfl, by simpa using hs⟩
+    · left; exact ⟨c, d :: t, rfl, by simpa [e] using hs⟩
+
+theorem numMalformed_normal (cs : List Nat) (hrad : ¬ ∃ x rest rdx, cs = 48 :: x :: rest ∧ radixOf x = some rdx) :
+    numMalformed cs = decMalformed cs := by
+  unfold numMalformed
+  split
+  · rename_i x rest
+    cases hh : radixOf x with
+    | none => rfl
+    | some rdx => exact absurd ⟨x, rest, rdx, rfl, hh⟩ hrad
+  · rfl
+
+theorem radixNoDigit_iff (x rdx : Nat) (rest : List Nat) (hx : radixOf x = some rdx) :
+    radixNoDigit (48 :: x :: rest) ↔ (radixRun rdx rest).1.isEmpty = true := by
+  have key : radixNoDigit (48 :: x :: rest) ↔
+      (((x = 98 ∨ x = 66) ∧ usDigits1 bindigit rest = []) ∨ ((x = 111 ∨ x = 79) ∧ usDigits1 octdigit rest = []) ∨
+       ((x = 120 ∨ x = 88) ∧ usDigits1 hexdigit rest = [])) := by
+    unfold radixNoDigit
+    constructor
+    · rintro ⟨x', rest', heq, h⟩
+      simp only [List.cons.injEq, true_and] at heq
+      rw [← heq.1, ← heq.2] at h; exact h
+    · intro h; exact ⟨x, rest, rfl, h⟩
+  rw [key, ← isDigitOf2, ← isDigitOf8, ← isDigitOf16, usDigits1_nil_iff, usDigits1_nil_iff, usDigits1_nil_iff]
+  unfold radixOf at hx
+  by_cases h16 : x = 120 ∨ x = 88
+  · have : rdx = 16 := by rcases h16 with h | h <;> subst h <;> simp at hx <;> exact hx.symm
+    subst this
+    constructor
+    · rintro (⟨h, _⟩ | ⟨h, _⟩ | ⟨_, h⟩)
+      · omega
+      · omega
+      · exact h
+    · intro h; exact Or.inr (Or.inr ⟨h16, h⟩)
+  · by_cases h8 : x = 111 ∨ x = 79
+    · have : rdx = 8 := by rcases h8 with h | h <;> subst h <;> simp at hx <;> exact hx.symm
+      subst this
+      constructor
+      · rintro (⟨h, _⟩ | ⟨_, h⟩ | ⟨h, _⟩)
+        · omega
+        · exact h
+        · omega
+      · intro h; exact Or.inr (Or.inl ⟨h8, h⟩)
+    · by_cases h2 : x = 98 ∨ x = 66
+      · have : rdx = 2 := by rcases h2 with h | h <;> subst h <;> simp at hx <;> exact hx.symm
+        subst this
+        constructor
+        · rintro (⟨_, h⟩ | ⟨h, _⟩ | ⟨h, _⟩)
+          · exact h
+          · omega
+          · omega
+        · intro h; exact Or.inl ⟨h2, h⟩
+      · exfalso
+        have a1 : ¬ x = 120 := fun h => h16 (Or.inl h)
+        have a2 : ¬ x = 88 := fun h => h16 (Or.inr h)
+        have a3 : ¬ x = 111 := fun h => h8 (Or.inl h)
+        have a4 : ¬ x = 79 := fun h => h8 (Or.inr h)
+        have a5 : ¬ x = 98 := fun h => h2 (Or.inl h)
+        have a6 : ¬ x = 66 := fun h => h2 (Or.inr h)
+        simp [a1, a2, a3, a4, a5, a6] at hx
+
+
+theorem decMalformed_iff (cs : List Nat) :
+    decMalformed cs = true ↔
+      (∃ t', drun 10 cs = 46 :: 95 :: t') ∨
+      ((headIs (· = 48) cs && (radixRun 10 cs).1.any (· ≠ 48)) = true ∧ headIs (· = 46) (drun 10 cs) = false ∧
+        atExponent (drun 10 cs) = false ∧ headIs isJ (drun 10 cs) = false) := by
+  unfold decMalformed
+  rw [Bool.or_eq_true]
+  rw [dotUs_iff]
+  simp only [Bool.and_eq_true, Bool.not_eq_true']
+  constructor
+  · rintro (h | ⟨⟨⟨⟨a, b⟩, c⟩, d⟩, e⟩)
+    · exact Or.inl h
+    · exact Or.inr ⟨⟨a, b⟩, c, d, e⟩
+  · rintro (h | ⟨⟨a, b⟩, c, d, e⟩)
+    · exact Or.inl h
+    · exact Or.inr ⟨⟨⟨⟨a, b⟩, c⟩, d⟩, e⟩
+
+/-- **The malformed shapes in the grammar's own terms.** -/
+theorem numMalformed_iff_spec (cs : List Nat) (hs : startsNumber cs = true) :
+    numMalformed cs = true ↔ NumMalformedSpec cs := by
+  rcases startsNumber_cases cs hs with ⟨c, t, hcs, hc⟩ | ⟨d, t, hcs, hd⟩
+  · -- the text starts with a digit
+    have hd_mem : drun 10 cs ∈ digitpart cs := by rw [hcs]; exact radixRun_digitpart c t hc
+    have hd_stop : usDigits digit (drun 10 cs) = [drun 10 cs] := by
+      rw [← isDigitOf10]; exact usDigits_stop 10 _ (radixRun_drun 10 cs)
+    have hdot : dotUnderscore cs ↔ ∃ t', drun 10 cs = 46 :: 95 :: t' := by
+      constructor
+      · rintro ⟨t', h⟩; exact ⟨t', by rw [← digitpart_drun cs _ h]; exact drun_dot _⟩
+      · rintro ⟨t', h⟩; exact ⟨t', by rw [← h]; exact hd_mem⟩
+    have hlz : leadingZero cs ↔
+        ((headIs (· = 48) cs && (radixRun 10 cs).1.any (· ≠ 48)) = true ∧ headIs (· = 46) (drun 10 cs) = false ∧
+          atExponent (drun 10 cs) = false ∧ headIs isJ (drun 10 cs) = false) := by
+      have hdec := drun_mem_decinteger_iff c t hc
+      rw [← hcs] at hdec
+      have hJ : (fun c => decide (c = 106) || decide (c = 74)) = isJ := rfl
+      constructor
+      · rintro ⟨r, h1, h2, h3, h4, h5, h6⟩
+        have hr : r = drun 10 cs := by
+          rw [← digitpart_drun cs r h1]
+          exact (drun_of_usDigits_single 10 r (by rw [isDigitOf10]; exact h2)).symm
+        subst hr
+        refine ⟨?_, (lit_nil_iff _ _).mp h4, (exponent_nil_iff _).mp h5, ?_⟩
+        · cases hb : (headIs (· = 48) cs && (radixRun 10 cs).1.any (· ≠ 48))
+          · exact absurd (hdec.mpr hb) h3
+          · rfl
+        · rw [← hJ]; exact (lit_nil_iff _ _).mp h6
+      · rintro ⟨h1, h2, h3, h4⟩
+        refine ⟨drun 10 cs, hd_mem, hd_stop, ?_, (lit_nil_iff _ _).mpr h2, (exponent_nil_iff _).mpr h3,
+          (lit_nil_iff _ _).mpr (by rw [hJ]; exact h4)⟩
+        intro hm
+        rw [hdec.mp hm] at h1; cases h1
+    by_cases hrad : ∃ x rest rdx, cs = 48 :: x :: rest ∧ radixOf x = some rdx
+    · obtain ⟨x, rest, rdx, hx0, hx⟩ := hrad
+      obtain ⟨p1, p2, p3, p4, p5⟩ := radixOf_plain x rdx hx
+      have hrr : radixRun 10 cs = ([48], x :: rest) := by
+        rw [hx0, radixRun_digit 10 48 _ (by decide), radixRun_stop 10 x rest p1 (by simp [p2])]
+      have hdr : drun 10 cs = x :: rest := by unfold drun; rw [hrr]
+      have hnd : ¬ dotUnderscore cs := by
+        rw [hdot, hdr]; rintro ⟨t', h⟩; simp only [List.cons.injEq] at h; exact p3 h.1
+      have hnl : ¬ leadingZero cs := by
+        rw [hlz, hrr]; rintro ⟨h, _⟩; simp at h
+      have hm : numMalformed cs = (radixRun rdx rest).1.isEmpty := by
+        rw [hx0]; simp only [numMalformed, hx]
+      unfold NumMalformedSpec
+      rw [hm, ← radixNoDigit_iff x rdx rest hx, ← hx0]
+      constructor
+      · intro h; exact Or.inl h
+      · rintro (h | h | h)
+        · exact h
+        · exact absurd h hnd
+        · exact absurd h hnl
+    · have hnr : ¬ radixNoDigit cs := by
+        rintro ⟨x, rest, hx0, h⟩
+        apply hrad
+        rcases h with ⟨h, _⟩ | ⟨h, _⟩ | ⟨h, _⟩
+        · exact ⟨x, rest, 2, hx0, by rcases h with h | h <;> subst h <;> rfl⟩
+        · exact ⟨x, rest, 8, hx0, by rcases h with h | h <;> subst h <;> rfl⟩
+        · exact ⟨x, rest, 16, hx0, by rcases h with h | h <;> subst h <;> rfl⟩
+      unfold NumMalformedSpec
+      rw [numMalformed_normal cs hrad, decMalformed_iff, hdot, hlz]
+      constructor
+      · intro h; exact Or.inr h
+      · rintro (h | h)
+        · exact absurd h hnr
+        · exact h
+  · -- `.` digit …
+    have hf : numMalformed cs = false := by
+      rw [numMalformed_normal cs (by rintro ⟨x, rest, rdx, h, _⟩; rw [hcs] at h; simp at h)]
+      cases hb : decMalformed cs
+      · rfl
+      · rcases (decMalformed_iff cs).mp hb with ⟨t', h⟩ | ⟨h, _⟩
+        · rw [hcs, drun_dot] at h
+          simp only [List.cons.injEq, true_and] at h
+          exact absurd h.1 (isDec_not95 d hd)
+        · rw [hcs] at h; simp [headIs] at h
+    rw [hf]
+    constructor
+    · intro h; cases h
+    · have hnd : digitpart cs = [] := by rw [hcs]; simp [digitpart, digit]
+      rintro (⟨x, rest, h, _⟩ | ⟨t', h⟩ | ⟨r, h, _⟩)
+      · rw [hcs] at h; simp at h
+      · rw [hnd] at h; simp at h
+      · rw [hnd] at h; simp at h
+
+/-- the lexer fails on exactly the texts that have one of the three malformed shapes of the grammar -/
+theorem lexRest_error_iff_spec (cs : List Nat) (hs : startsNumber cs = true) :
+    (∃ e, lexRest cs = .error e) ↔ NumMalformedSpec cs := by
+  rw [lexRest_error_iff, numMalformed_iff_spec cs hs]
 
 
 /-! ### the theorems -/
@@ -1026,5 +1399,14 @@ example : startsNumber [49, 46, 53, 101, 51, 43, 50] = true ∧ numMalformed [49
 -- lexRest_error_iff / lexRest_error_not_literal
 example : lexRest [48, 98, 50] = .error [48, 98, 50] ∧ numMalformed [48, 98, 50] = true := ⟨rfl, by decide⟩   -- 0b2
 example : lexRest [48, 48, 95, 49] = .error [] ∧ isNumber [48, 48, 95, 49] = false := ⟨rfl, by decide⟩         -- 00_1
+
+-- numMalformed_iff_spec / lexRest_error_iff_spec: each disjunct is inhabited, and the predicate is not trivial
+example : startsNumber [48, 57] = true ∧ leadingZero [48, 57] :=                                          -- 09
+  ⟨by decide, [], by decide, by decide, by decide, by decide, by decide, by decide⟩
+example : startsNumber [49, 46, 95] = true ∧ dotUnderscore [49, 46, 95] := ⟨by decide, [], by decide⟩    -- 1._
+example : startsNumber [48, 120] = true ∧ radixNoDigit [48, 120] :=                                       -- 0x
+  ⟨by decide, 120, [], rfl, Or.inr (Or.inr ⟨Or.inl rfl, by decide⟩)⟩
+example : ¬ NumMalformedSpec [49, 95] :=                                                                  -- 1_
+  fun h => absurd ((numMalformed_iff_spec _ (by decide)).mpr h) (by decide)
 
 end PV.C04
